@@ -80,6 +80,8 @@ func checkC08(p *Prog, r *Report) {
 	dayHandover(p, r, "C08.R6")
 	// potential ET ≥ 0 needs non-negative sunshine hours and radiation: the sentinel must not survive (shared with C04.R8)
 	sentinelFallback(p, r, "C08.R8")
+	// daily amounts of evaporation and uptake are applied exactly once per day: sub-step count × length ≡ one day (shared with C01.R1)
+	c01R1(p, r, "C08.R9")
 	// a NaN compares false with every cap and bound: the partial operations of the evapotranspiration routine stay
 	// inside their domains (shared machinery with C06.R6)
 	domainRule(p, r, "C08.R7", "the evapotranspiration routine", []string{"hermes.Evatra"}, 60)
